@@ -119,6 +119,17 @@ class Closure:
         return _INTERP.call(self, args, kwargs)
 
 
+class CoroObj:
+    """coroutine object produced by calling an async function in interpreted code (run when awaited)"""
+    __slots__ = ("func", "args", "kwargs", "started")
+
+    def __init__(self, func, args, kwargs):
+        self.func = func
+        self.args = args
+        self.kwargs = kwargs
+        self.started = False
+
+
 class GenObj:
     """un-started generator object produced by calling a generator function in interpreted code."""
     __slots__ = ("func", "args", "kwargs", "started")
